@@ -15,6 +15,7 @@ import ast
 from sa import mutate as M
 from sa.consts import UNKNOWN
 from sa import pattern as PT
+from sa import values as VX
 from sa.ctx import Ctx
 from sa.effects import Raises
 from sa.loader import AnalysisError, call_name, norm, own_nodes, parent
@@ -51,13 +52,15 @@ def rule_block_gate(ctx: Ctx, rep: Report) -> None:
     wc = ctx.func(f"{BL}.Block.assert_valid_witness_commitment")
     cw = refusal_constraints(ctx, wc)
     rep.ob(rule, "witness:without_commitment", any(c.subject == "commitment" and c.op == "is" for c in cw), wc.where(), "witness data without a commitment refused")
+    vx = VX.of(wc)
     mw: dict[str, str] = {}
-    wcm = PT.find(wc.node, "$wc = _HF($wr + $ws[0])", mw)
-    rep.ob(rule, "witness:mismatch", wcm is not None and any(c.op == "!=" and mw.get("wc") in (str(c.subject), str(c.value_text).split(" |")[0]) for c in cw), wc.where(wcm), "commitment mismatch refused")
+    mismatch = vx.anywhere("_HF($$root + $$ws[0]) != $$c", mw) and "commitment" in mw.get("$$c", "")
+    rep.ob(rule, "witness:mismatch", mismatch and any(c.op == "!=" for c in cw), wc.where(), "commitment mismatch refused")
     rep.ob(rule, "witness:nonce_shape", any("len(witness_stack)" in c.subject and c.op == "!=" and c.value == 1 for c in cw) and any("len(witness_stack[0])" in c.subject and c.value == 32 for c in cw), wc.where(), "exactly one 32-byte witness nonce")
     txt = PT.text(wc)
-    rep.ob(rule, "witness:coinbase_zero_hash", "[b'\\x00' * 32] + [_HF(tx.serialize(include_witness=True, check_validity=False)) for tx in self.transactions[1:]]" in txt, wc.where(), "the coinbase's wtxid is 32 zero bytes")
-    rep.ob(rule, "witness:commitment_hash", "_HF(witness_root + witness_stack[0])" in txt, wc.where(), "commitment = hash(witness root || nonce)")
+    root = mw.get("$$root", "")
+    rep.ob(rule, "witness:coinbase_zero_hash", ("[b'\\x00' * 32] + [" in root or "[bytes(32)] + [" in root) and "self.transactions[1:]" in root and "include_witness=True" in root, wc.where(), "the coinbase's wtxid is 32 zero bytes")
+    rep.ob(rule, "witness:commitment_hash", mismatch and "merkle_root_and_mutated_from_hashes(" in root, wc.where(), "commitment = hash(witness root || nonce)")
     rep.ob(rule, "commitment_prefix", ctx.const(BL, "_COMMITMENT_PREFIX") == bytes.fromhex("6a24aa21a9ed"), "btclib/block/block.py:1", "OP_RETURN 0x24 0xaa21a9ed")
 
 BF = "btclib.block.block_filter"
@@ -145,15 +148,20 @@ def rule_pow(ctx: Ctx, rep: Report) -> None:
     rep.ob(rule, "limits", ctx.const(PW, "MAINNET_POW_LIMIT_BITS") == bytes.fromhex("1d00ffff") and ctx.const(PW, "REGTEST_POW_LIMIT_BITS") == bytes.fromhex("207fffff"), "btclib/block/proof_of_work.py:1", "0x1d00ffff / 0x207fffff")
     vb = ctx.func(f"{PW}._value_from_bits")
     txt = PT.text(vb)
-    rep.ob(rule, "decode:pivot", ("if exponent < 3: return significand >> 8 * (3 - exponent)" in txt or "if exponent <= 3: return significand >> 8 * (3 - exponent)" in txt) and "return significand << 8 * (exponent - 3)" in txt, vb.where(), "shift right below 3, left above (equal at 3)")
-    rep.ob(rule, "decode:mask", "& _SIGNIFICAND_MASK" in txt and "exponent = bits[0]" in txt, vb.where(), "the sign bit is masked off the mantissa")
+    vx = VX.of(vb)
+    bb: dict[str, str] = {}
+    piv_ok = any(vx.returns(p_, bb) for p_ in ("$$s >> 8 * (3 - $$e) if $$e < 3 else $$s << 8 * ($$e - 3)", "$$s >> 8 * (3 - $$e) if $$e <= 3 else $$s << 8 * ($$e - 3)",
+                                                "$$s << 8 * ($$e - 3) if $$e > 3 else $$s >> 8 * (3 - $$e)", "$$s << 8 * ($$e - 3) if $$e >= 3 else $$s >> 8 * (3 - $$e)"))
+    rep.ob(rule, "decode:pivot", piv_ok, vb.where(), "shift right below 3, left above (equal at 3)")
+    rep.ob(rule, "decode:mask", piv_ok and "& _SIGNIFICAND_MASK" in bb.get("$$s", "") and bb.get("$$e", "").endswith("[0]"), vb.where(), "the sign bit is masked off the mantissa")
     tb = ctx.func(f"{PW}.target_from_bits")
     ts = ctx.const(PW, "TARGET_SIZE")
     ct = refusal_constraints(ctx, tb)
     rep.ob(rule, "decode:overflow", ts == 32 and any(c.subject == "value" and c.op == ">=" and (c.value == 256**32) for c in ct), tb.where(), "value >= 2^256 refused")
     bt = ctx.func(f"{PW}.bits_from_target")
     txt = PT.text(bt)
-    rep.ob(rule, "encode:exponent", "exponent = (value.bit_length() + 7) // 8" in txt, bt.where(), "exponent = byte length of the value")
+    vx = VX.of(bt)
+    rep.ob(rule, "encode:exponent", vx.anywhere("($$v.bit_length() + 7) // 8") or vx.anywhere("-(-$$v.bit_length() // 8)") or vx.anywhere("(7 + $$v.bit_length()) // 8"), bt.where(), "exponent = byte length of the value")
     me: dict[str, str] = {}
     piv = PT.find(bt.node, "if $e <= 3:\n    $s = $v << 8 * (3 - $e)\nelse:\n    $s = $v >> 8 * ($e - 3)", me) or PT.find(bt.node, "if $e < 3:\n    $s = $v << 8 * (3 - $e)\nelse:\n    $s = $v >> 8 * ($e - 3)", me) \
         or PT.find(bt.node, "if $e > 3:\n    $s = $v >> 8 * ($e - 3)\nelse:\n    $s = $v << 8 * (3 - $e)", me)
@@ -163,8 +171,12 @@ def rule_pow(ctx: Ctx, rep: Report) -> None:
     rep.ob(rule, "encode:length", any(c.subject.startswith("len(") and c.op in (">", ">=") for c in refusal_constraints(ctx, bt)), bt.where(), "targets longer than 32 bytes refused")
     nb = ctx.func(f"{PW}.next_bits")
     txt = PT.text(nb)
-    rep.ob(rule, "retarget:clamp", "actual_timespan = max(actual_timespan, POW_TARGET_TIMESPAN // 4)" in txt and "actual_timespan = min(actual_timespan, POW_TARGET_TIMESPAN * 4)" in txt, nb.where(), "timespan clamped to [T/4, 4T]")
-    rep.ob(rule, "retarget:arithmetic", "target = target * actual_timespan % 2 ** 256" in txt and "target //= POW_TARGET_TIMESPAN" in txt and "target = min(target, pow_limit)" in txt, nb.where(), "multiply (mod 2^256), divide, cap at the limit")
+    vx = VX.of(nb)
+    clamps = ("min(max($$a, POW_TARGET_TIMESPAN // 4), POW_TARGET_TIMESPAN * 4)", "max(min($$a, POW_TARGET_TIMESPAN * 4), POW_TARGET_TIMESPAN // 4)",
+              "min(POW_TARGET_TIMESPAN * 4, max($$a, POW_TARGET_TIMESPAN // 4))", "max(POW_TARGET_TIMESPAN // 4, min($$a, POW_TARGET_TIMESPAN * 4))")
+    rep.ob(rule, "retarget:clamp", any(vx.anywhere(p_) for p_ in clamps), nb.where(), "timespan clamped to [T/4, 4T]")
+    rep.ob(rule, "retarget:arithmetic", any(vx.anywhere(p_) for p_ in ("min($$t * $$a % 2 ** 256 // POW_TARGET_TIMESPAN, $$l)", "min($$l, $$t * $$a % 2 ** 256 // POW_TARGET_TIMESPAN)",
+                                                                        "min($$a * $$t % 2 ** 256 // POW_TARGET_TIMESPAN, $$l)")), nb.where(), "multiply (mod 2^256), divide, cap at the limit")
     rh = ctx.func(f"{PW}.retarget_first_height")
     rep.ob(rule, "retarget:height", any("(last_height + 1) % DIFFICULTY_ADJUSTMENT_INTERVAL" in c.subject and c.op == "truthy" for c in refusal_constraints(ctx, rh)), rh.where(), "only heights = k*2016 - 1 close a period")
     bw = ctx.func(f"{PW}.block_work")
